@@ -160,6 +160,50 @@ fn tinylfu_case(num_counters: usize, pattern: Pattern, rng: &mut Rng, rep: &mut 
             recs_since_rows = 0;
             continue;
         }
+        if op < 8 && num_counters >= 2 {
+            // a batch through increments(): the aging reset must still fall on the exact record
+            let batch: Vec<u64> = (0..rng.range(2, 9)).map(|_| gen_key(pattern, rng, universe, base)).collect();
+            let mut reset_inside = false;
+            let mut after: HashMap<u64, u64> = n.clone();
+            let mut w2 = w;
+            for k in batch.iter() {
+                if w2 + 1 >= num_counters {
+                    w2 = 0;
+                    after.clear();
+                    reset_inside = true;
+                } else {
+                    w2 += 1;
+                    *after.entry(*k).or_insert(0) += 1;
+                }
+            }
+            t.increments(batch.clone());
+            rep.count("c13_batches");
+            rep.add("c13_records", batch.len() as u64);
+            trail.push(format!("increments({} keys{})", batch.len(), if reset_inside { ", window boundary inside" } else { "" }));
+            w = w2;
+            n = after;
+            if reset_inside {
+                rep.count("c13_batches_crossing_a_reset");
+                last_est.clear();
+                if w == 0 && t.door_bits_set() != 0 {
+                    fail!("reset-doorkeeper-not-emptied", "a batch ended exactly on the {}-th record but the doorkeeper still has {} bits", num_counters, t.door_bits_set());
+                }
+            }
+            for (kk, cnt) in n.iter() {
+                let e = t.estimate(*kk);
+                if e < (*cnt).min(16) as i64 {
+                    fail!("undercount", "estimate({kk:#x}) = {e} after {cnt} records since the aging reset{} (batch path)", if reset_inside { " that fell inside the last batch" } else { "" });
+                }
+            }
+            let (samples, wnow) = t.window();
+            if wnow != w || samples != num_counters {
+                // internal representation: measured only; the behavioural clauses at the next expected reset decide
+                rep.count("c13_window_counter_differs_from_shadow_measured_only");
+            }
+            rows_prev = t.sketch_rows();
+            recs_since_rows = 0;
+            continue;
+        }
         // one record
         let k = gen_key(pattern, rng, universe, base);
         let will_reset = w + 1 >= num_counters;
